@@ -136,9 +136,9 @@ func init() {
 			"at most one outstanding read per node; horizon 14-30 intervals; deviation bound per suite"}, nil, sp)
 	}
 	checks["C15"] = func(prop, tier string) int {
-		p := []plan{{"live-rep3-d2", 160}, {"live-mem3-d2", 55}, {"live-bigsnap3-d2", 95}, {"live-snap3-d1", 35}, {"live-termgap3-d2", 40}, {"live-readd3-d2", 30}, {"live-eager3-d2", 40}, {"live-mem1-d3", 30}, {"live-rep3all-d2", 150}, {"live-mem3all-d2", 90}}
+		p := []plan{{"live-rep3-d2", 160}, {"live-mem3-d2", 55}, {"live-bigsnap3-d2", 95}, {"live-snap3-d1", 35}, {"live-termgap3-d2", 40}, {"live-readd3-d2", 30}, {"live-eager3-d3", 60}, {"live-mem1-d3", 30}, {"live-rep3all-d2", 150}, {"live-mem3all-d2", 90}}
 		if tier == "thorough" {
-			p = []plan{{"live-rep3all-d2", 400}, {"live-rep3-d3", 500}, {"live-mem3all-d2", 200}, {"live-mem3-d3", 400}, {"live-bigsnap3all-d2", 300}, {"live-bigsnap3-d3", 400}, {"live-snap3all-d2", 400}, {"live-snap3-d3", 400}, {"live-termgap3-d3", 200}, {"live-readd3-d3", 200}, {"live-eager3-d3", 300}, {"live-mem1-d4", 200}}
+			p = []plan{{"live-rep3all-d2", 400}, {"live-rep3-d3", 500}, {"live-mem3all-d2", 200}, {"live-mem3-d3", 400}, {"live-bigsnap3all-d2", 300}, {"live-bigsnap3-d3", 400}, {"live-snap3all-d2", 400}, {"live-snap3-d3", 400}, {"live-termgap3-d3", 200}, {"live-readd3-d3", 200}, {"live-eager3-d4", 400}, {"live-mem1-d4", 200}}
 		}
 		return clusterCheck(prop, tier, p, []string{"leader_present", "op_acked", "continuations", "restarted_node_up"}, []string{
 			"liveness as bounded liveness: from every leaf state (quick) / every distinct state (thorough) of the listed explorations a fault-free continuation runs for 150 heartbeat intervals (25 election timeouts): partitions heal, messages are delivered within the interval, election timeouts are staggered per node; premise checked: a majority of the voters is running",
